@@ -224,7 +224,7 @@ static void* do_alloc(int op, mi_heap_t* hp, size_t n, size_t cnt, size_t sz, si
 static const size_t cnt_sizes[] = {1, 2, 3, 4, 8, 12, 16, 24, 40, 100, 4096};
 
 /* profile knobs */
-static int w_alloc = 40, w_free = 25, w_realloc = 12, w_write = 5, w_query = 5, w_heap = 4, w_visit = 2, w_collect = 3, w_expand = 2, w_bad = 0, w_chain = 0;
+static int w_alloc = 40, w_free = 25, w_realloc = 12, w_write = 5, w_query = 5, w_heap = 4, w_visit = 2, w_collect = 3, w_expand = 2, w_bad = 0, w_chain = 0, w_bulk = 0;
 static int fill_mode_default = 0;  /* 0 = fill whole usable size, 1 = requested size */
 static int only_zero_ops = 0, only_aligned = 0, allow_heaps = 1;
 
@@ -763,6 +763,102 @@ static void op_visit(int hidx, int stopat) {
   log_obs(-1, -1, 0); log_ret_end();
 }
 
+/* ---- bulk groups: many blocks of one size class allocated in one go so that whole pages fill up, extend and empty again;
+   logged as ONE event with the address-sorted list of <<hi, lo, usable>> (the specification checks sortedness and disjointness) */
+#define MAXGROUPS 8
+#define MAXGMEM 20000
+typedef struct { int id; int n; void** p; size_t req; uint32_t gen; size_t wr; } grp_t;
+static grp_t grps[MAXGROUPS];
+static int next_grp = 1;
+static int cmp_ptr(const void* a, const void* b) { uintptr_t x = (uintptr_t)*(void* const*)a, y = (uintptr_t)*(void* const*)b; return x < y ? -1 : x > y; }
+static uint32_t gmem_id(int gid, int idx) { return 0x40000000u | ((uint32_t)gid << 16) | (uint32_t)(idx & 0xFFFF); }
+static size_t grp_min_match(grp_t* g, int which, int* count) {    /* minimum matched length over the selected members */
+  size_t minn = (size_t)-1; int c = 0;
+  for (int i = 0; i < g->n; i++) {
+    int pos = i + 1, sel = 0;
+    switch (which) { case 0: sel = 1; break; case 1: sel = (pos % 2 == 0); break; case 2: sel = (pos % 2 == 1); break; case 3: sel = (pos * 2 <= g->n); break; default: sel = (pos * 2 > g->n); }
+    if (!sel) continue;
+    size_t us = mi_usable_size(g->p[i]); size_t w = (g->wr < us ? g->wr : us);
+    /* the pattern id is bound to the ADDRESS (stable under re-sorting): low bits of the address */
+    size_t m = vf_match(g->p[i], gmem_id(g->id, (int)(((uintptr_t)g->p[i] >> 3) & 0xFFFF)), g->gen, w, w);
+    if (m < w && m < minn) minn = m;
+    if (m >= w && g->wr < minn && minn == (size_t)-1) { }
+    c++;
+  }
+  if (count) *count = c;
+  return (minn == (size_t)-1 ? g->wr : minn);
+}
+static void op_malloc_many(size_t req, int count, int kind /* 0 malloc, 1 zalloc, 2 malloc_aligned(256) */) {
+  int gi; for (gi = 0; gi < MAXGROUPS; gi++) if (grps[gi].n == 0) break;
+  if (gi >= MAXGROUPS || count > MAXGMEM) return;
+  grp_t* g = &grps[gi];
+  g->p = (void**)realloc(g->p, sizeof(void*) * (size_t)count);
+  g->id = next_grp++; g->req = req; g->gen = 1 + (uint32_t)vf_randn(1000); g->n = 0;
+  size_t al = (kind == 2 ? 256 : 0);
+  size_t minz = (size_t)-1;
+  /* a few individually tracked neighbours are allocated while the group's first page is being filled, so that the slices right
+     behind that page hold pages of other (power-of-two, offset-free) classes whose first block is live */
+  static const size_t nb_sizes[] = {1024, 2048, 4096, 8192, 16384, 70000};
+  int nb_at = 5 + (int)vf_randn(20), nb_n = (int)vf_randn(3);
+  for (int i = 0; i < count; i++) {
+    if (i == nb_at) { for (int k = 0; k < nb_n; k++) op_alloc_ex(A_malloc, nb_sizes[vf_randn(6)], 0, 0, 0, 0); }
+    vf_in_call = 1;
+    void* q = (kind == 1 ? mi_zalloc(req) : kind == 2 ? mi_malloc_aligned(req, al) : mi_malloc(req));
+    vf_in_call = 0;
+    if (!q) break;
+    g->p[g->n++] = q;
+  }
+  if (g->n == 0) return;
+  qsort(g->p, (size_t)g->n, sizeof(void*), cmp_ptr);
+  g->wr = (kind == 1 ? req : (size_t)-1);
+  vf_logf("{\"e\":\"batch\",\"t\":%d,\"grp\":%d,\"h\":%d,\"n\":%zu,\"al\":%zu,\"zero\":%s,\"blocks\":[", cur_t, g->id, hps[dflt_idx].id, req, al, kind == 1 ? "true" : "false");
+  size_t minus = (size_t)-1;
+  for (int i = 0; i < g->n; i++) {
+    size_t us = mi_usable_size(g->p[i]); if (us < minus) minus = us;
+    if (kind == 1) { size_t z = vf_zero_run(g->p[i], 0, us); if (z < minz) minz = z; }
+    vf_logf("%s[%ld,%ld,%zu]", i ? "," : "", VF_HI(g->p[i]), VF_LO(g->p[i]), us);
+  }
+  if (g->wr == (size_t)-1) g->wr = minus;      /* every member is written over the smallest usable size of the group */
+  for (int i = 0; i < g->n; i++) vf_fill(g->p[i], gmem_id(g->id, (int)(((uintptr_t)g->p[i] >> 3) & 0xFFFF)), g->gen, g->wr);
+  vf_logf("],\"z\":%zu,\"gen\":%u,\"wr\":%zu}", kind == 1 ? minz : 0, g->gen, g->wr); vf_log_line_end();
+}
+static void op_free_pattern(int gi, int which) {
+  static const char* wn[] = {"all", "even", "odd", "first", "second"};
+  grp_t* g = &grps[gi]; if (g->n == 0) return;
+  int count = 0; size_t minn = grp_min_match(g, which, &count);
+  vf_logf("{\"e\":\"batch_free\",\"t\":%d,\"grp\":%d,\"which\":\"%s\",\"minn\":%zu,\"count\":%d}", cur_t, g->id, wn[which], minn, count); vf_log_line_end();
+  int k = 0, n0 = g->n;
+  vf_in_call = 1;
+  /* free in a seeded order: forward, backward or strided */
+  int order = (int)vf_randn(3);
+  for (int j = 0; j < n0; j++) {
+    int i = (order == 0 ? j : order == 1 ? n0 - 1 - j : (int)(((long)j * 7919) % n0));
+    int pos = i + 1, sel = 0;
+    switch (which) { case 0: sel = 1; break; case 1: sel = (pos % 2 == 0); break; case 2: sel = (pos % 2 == 1); break; case 3: sel = (pos * 2 <= n0); break; default: sel = (pos * 2 > n0); }
+    if (sel && g->p[i]) { mi_free(g->p[i]); g->p[i] = NULL; }
+  }
+  vf_in_call = 0;
+  for (int i = 0; i < n0; i++) if (g->p[i]) g->p[k++] = g->p[i];
+  g->n = k;
+}
+static void op_bulk(void) {
+  int alive = 0; for (int i = 0; i < MAXGROUPS; i++) if (grps[i].n > 0) alive++;
+  if (alive > 0 && (alive >= 2 || vf_randn(2))) {
+    int gi; do { gi = (int)vf_randn(MAXGROUPS); } while (grps[gi].n == 0);
+    op_free_pattern(gi, (int)vf_randn(5));
+    return;
+  }
+  static const size_t classes[] = {8, 8, 8, 24, 40, 56, 16, 32, 48, 64, 100, 128, 384, 1024, 8192, 24, 8};   /* the tiny classes whose page start is not 16-aligned come up most often */
+  size_t req = classes[vf_randn(sizeof(classes) / sizeof(classes[0]))];
+  int kind = (int)vf_randn(5); kind = (kind < 3 ? 0 : kind == 3 ? 1 : 2);
+  if (kind == 2) req = 100;                 /* over-aligned blocks of the 384-byte class: every second block is adjusted */
+  size_t bs = mi_good_size(req + (kind == 2 ? 255 : 0)); if (bs < 8) bs = 8;
+  long perpage = 65536 / (long)bs; if (perpage < 1) perpage = 1;
+  int count = (int)(perpage * (1 + (long)vf_randn(2)) + (long)vf_randn((uint64_t)perpage / 4 + 2));
+  if (count > MAXGMEM) count = MAXGMEM;
+  op_malloc_many(req, count, kind);
+}
+
 static void op_checkall(void) {
   vf_logf("{\"e\":\"checkall\",\"t\":0,\"obs\":[");
   int first = 1;
@@ -770,6 +866,8 @@ static void op_checkall(void) {
     size_t n = vf_match(slots[s].p, (uint32_t)slots[s].id, slots[s].gen, slots[s].wr, slots[s].wr);
     vf_logf("%s[%d,%u,%zu]", first ? "" : ",", slots[s].id, slots[s].gen, n); first = 0;
   }
+  vf_logf("],\"gobs\":["); first = 1;
+  for (int i = 0; i < MAXGROUPS; i++) if (grps[i].n > 0) { int c = 0; size_t m = grp_min_match(&grps[i], 0, &c); vf_logf("%s[%d,%d,%zu]", first ? "" : ",", grps[i].id, c, m); first = 0; }
   vf_logf("]}"); vf_log_line_end();
 }
 
